@@ -495,12 +495,10 @@ class Lab:
                 cands = [expected_bytes(it["name"], pp) for pp in fresh[key]]
             else:
                 cands = [before[key]["bytes"]]
-            with open(p, "rb") as fh0:
-                d0 = fh0.read() if os.path.isfile(p) else None
-            exp = d0 if d0 in cands else cands[0]
             require(os.path.isfile(p), "returned_path_exists", f"key={key} path={p}")
             with open(p, "rb") as fh:
                 data = fh.read()
+            exp = data if data in cands else cands[0]
             require(data == exp, "returned_path_holds_resource_bytes",
                     f"key={key} got {len(data)} bytes, expected {len(exp)}")
             self.model[key] = {"bytes": exp, "rec": self.op}
